@@ -15,7 +15,7 @@ func init() {
 		"(R3) parseField and marshalField dispatch on the same type constants and kinds, anything else is a structuralError, the six tag keys are cut at their own length and both directions read the same tag; "+
 		"(R4) fieldInfo.check's decision table is the documented one and gates every enum/vector success in both directions; uint24 overflow and invalid tag sizes are errors; byteCount's thresholds are the 2^(8k); "+
 		"(R5) every index, slice, big-endian load and allocation in the decoder is entailed to be inside its window / not larger than the remaining input by the dominating guards (ideal integers); "+
-		"(R6) the decision table of the variant (selector) logic in both directions; "+
+		"(R6) the decision table of the variant (selector) logic in both directions, decided on the paths of one iteration wherever the bookkeeping is written (inline or in a helper that answers chosen / not chosen): a variant whose selector was not seen, whose type is not a pointer (whatever the selector value, and before anything that is only defined on pointers runs on the field), or that is a second pick for a served selector is an error; an unchosen one is set nil / must be nil; the chosen one is allocated / must be non-nil, marked served and coded exactly once as v.Field(i).Elem(), a plain field as v.Field(i) of the field whose tag was looked up; "+
 		"(R10) the bounds gate every accepting path, walked from the function entries: with every info.check (decoder: readVarUint, and check inside it) failing, marshalField / parseField accept only in the cases of shapes without bounds, readVarUint and the *WithParams entry points not at all; the entry points hand back exactly what the workers produced, Marshal / Unmarshal forward, and only the codec calls the workers. "+
 		"NOT covered: the round-trip equalities themselves, semantics of package reflect, integer wrap-around (1<<(8*count) for count=8; int(varlen) on 32-bit platforms), tag sizes above 8 on selector-tagged fields, zero-size element types, termination.",
 		runC09)
